@@ -126,3 +126,265 @@ Theorem C06_merge_bp : forall (A : Type) (comb : A -> list A -> A) (bp : Z) (who
   let m := merge_sel comb bp (all_gaps bp whole) t in
   (forall z, covers m z <-> covers t z) /\ overlap_below bp m /\ (valid whole -> valid m).
 Proof. exact c06_merge_bp. Qed.
+
+(* ==== GENOME LEVEL =============================================================
+   A table over several chromosomes as the public methods see it: `list (g_row A)`,
+   a row being (start, end, (chromosome, other fields)); `g_on c` selects chromosome c,
+   `g_chroms t` lists the chromosome names in order of first appearance (pandas
+   groupby(sort=False)), `g_order t` is that list sorted by name and then stably by
+   sorter_chrom.  The models g_merge / g_flatten / g_subtract / g_intersect /
+   g_subdivide / g_resize / g_total are what the harness runs against
+   GenomicArray.merge / flatten / subtract / intersection(trim) / subdivide /
+   resize_ranges / total_range_size on whole multi-chromosome tables. *)
+From CNV Require Import Base.QNum Model.IvCombine Model.Chromsort.
+From CNV Require Import Proofs.IvGenome Proofs.IvPayload Proofs.IvGenomePayload Proofs.IvProps2.
+From CNV Require Gen.IvCombiners.
+
+(* the literals the statements below use are the code's *)
+Example C06_code_defaults :
+  Gen.IvDefaults.ga_merge_bp_default = 0 /\ Gen.IvDefaults.merge_bp_default = 0 /\
+  Gen.IvDefaults.flatten_group_bp = 0 /\ Gen.IvDefaults.total_size_bp = 1 /\
+  Gen.IvCombiners.ga_merge_stranded_default = false /\ Gen.IvCombiners.flatten_stranded = false /\
+  Gen.IvCombiners.mixed_strand = "."%string /\ Gen.IvDefaults.join_sep = ","%string.
+Proof. repeat split; reflexivity. Qed.
+
+(* MERGE, per chromosome: the rows of chromosome c in merge(table, bp) are the proved
+   per-chromosome merge of that chromosome's rows (fast path decided on the whole table,
+   C06_merge / C06_merge_bp speak about exactly this `merge_sel ... (filter sel whole)`) *)
+Theorem C06_genome_merge : forall (A : Type) (comb : A -> list A -> A) (bp : Z) (t : list (g_row A)) (c : string),
+  filter (g_on c) (g_merge comb bp t) =
+  merge_sel (g_comb comb) bp (all_gaps bp t) (filter (g_on c) t).
+Proof. exact c06_genome_merge. Qed.
+
+(* ... hence, for the default bp, the property's clause chromosome by chromosome *)
+Theorem C06_genome_merge_spec : forall (A : Type) (comb : A -> list A -> A) (t : list (g_row A)) (c : string),
+  valid t ->
+  let m := filter (g_on c) (g_merge comb 0 t) in
+  (forall z, covers m z <-> covers (filter (g_on c) t) z) /\ sorted_separated m /\ valid m.
+Proof. exact c06_genome_merge_spec. Qed.
+
+(* output order as coded: nothing to merge anywhere -> the table comes back as it is;
+   otherwise one contiguous block per chromosome of the input, the blocks ordered by
+   chromosome name and then (stably) by sorter_chrom *)
+Theorem C06_genome_merge_order : forall (A : Type) (comb : A -> list A -> A) (bp : Z) (t : list (g_row A)),
+  (all_gaps bp t = true -> g_merge comb bp t = t) /\
+  (all_gaps bp t = false ->
+     g_chroms (g_merge comb bp t) = g_order t /\
+     g_merge comb bp t = flat_map (fun c => filter (g_on c) (g_merge comb bp t)) (g_order t)) /\
+  Permutation (g_chroms t) (g_order t) /\
+  StronglySorted (fun a b => ckey_leb (chrom_key a) (chrom_key b) = true) (g_order t).
+Proof. exact c06_genome_merge_order. Qed.
+
+(* FLATTEN *)
+Theorem C06_genome_flatten : forall (A : Type) (comb : A -> list A -> A) (t : list (g_row A)) (c : string),
+  filter (g_on c) (g_flatten comb t) =
+  flatten_sel (g_comb comb) (no_overlap t) (filter (g_on c) t).
+Proof. exact c06_genome_flatten. Qed.
+
+Theorem C06_genome_flatten_spec : forall (A : Type) (comb : A -> list A -> A) (t : list (g_row A)) (c : string),
+  valid t ->
+  let u := filter (g_on c) t in
+  let fl := filter (g_on c) (g_flatten comb t) in
+  (forall z, covers fl z <-> covers u z) /\ sorted_disjoint fl /\ valid fl /\
+  (forall y p, boundary u y -> In p fl -> ~ (lo p < y < hi p)).
+Proof. exact c06_genome_flatten_spec. Qed.
+
+Theorem C06_genome_flatten_order : forall (A : Type) (comb : A -> list A -> A) (t : list (g_row A)),
+  (no_overlap t = true -> g_flatten comb t = t) /\
+  (no_overlap t = false -> valid t ->
+     g_chroms (g_flatten comb t) = g_order t /\
+     g_flatten comb t = flat_map (fun c => filter (g_on c) (g_flatten comb t)) (g_order t)).
+Proof. exact c06_genome_flatten_order. Qed.
+
+(* SUBTRACT: an empty `other` gives the table back; otherwise per chromosome the proved
+   subtraction; a chromosome present only in the table is UNTOUCHED *)
+Theorem C06_genome_subtract : forall (A B : Type) (a : list (g_row A)) (b : list (g_row B)) (c : string),
+  (b = [] -> g_subtract a b = a) /\
+  (b <> [] -> filter (g_on c) (g_subtract a b) = subtract (filter (g_on c) a) (filter (g_on c) b)) /\
+  (~ In c (g_chroms b) -> filter (g_on c) (g_subtract a b) = filter (g_on c) a).
+Proof. exact c06_genome_subtract. Qed.
+
+Theorem C06_genome_subtract_spec : forall (A B : Type) (a : list (g_row A)) (b : list (g_row B)) (c : string),
+  sorted_lo (filter (g_on c) b) ->
+  forall z, covers (filter (g_on c) (g_subtract a b)) z <->
+            covers (filter (g_on c) a) z /\ ~ covers (filter (g_on c) b) z.
+Proof. exact c06_genome_subtract_spec. Qed.
+
+(* the chromosomes of the table in order of first appearance, each one contiguous (no final
+   sort); a chromosome whose rows are all removed disappears *)
+Theorem C06_genome_subtract_order : forall (A B : Type) (a : list (g_row A)) (b : list (g_row B)),
+  b <> [] ->
+  g_subtract a b = flat_map (fun c => filter (g_on c) (g_subtract a b)) (g_chroms a) /\
+  g_chroms (g_subtract a b) =
+    filter (fun c => negb (Nat.eqb (length (filter (g_on c) (g_subtract a b))) 0)) (g_chroms a).
+Proof. exact c06_genome_subtract_order. Qed.
+
+(* TRIMMED INTERSECTION: per chromosome the proved operation; a chromosome present in only
+   one of the tables is DROPPED; blocks in the order of first appearance in `other` *)
+Theorem C06_genome_intersect : forall (A B : Type) (a : list (g_row A)) (b : list (g_row B)) (c : string),
+  filter (g_on c) (g_intersect a b) = intersect_trim (filter (g_on c) a) (filter (g_on c) b) /\
+  (~ In c (g_chroms a) \/ ~ In c (g_chroms b) -> filter (g_on c) (g_intersect a b) = []) /\
+  g_intersect a b = flat_map (fun c => filter (g_on c) (g_intersect a b)) (g_chroms b).
+Proof. exact c06_genome_intersect. Qed.
+
+(* both tables on one and the same chromosome (the single-chromosome shortcut of by_shared_chroms,
+   where the code hands the tables over whole): the genome-level operations are the per-chromosome ones *)
+Theorem C06_genome_single_chrom : forall (A B : Type) (a : list (g_row A)) (b : list (g_row B)) (c : string),
+  g_chroms a = [c] -> g_chroms b = [c] ->
+  g_subtract a b = subtract a b /\ g_intersect a b = intersect_trim a b.
+Proof. exact @g_single_chrom. Qed.
+
+(* SUBDIVIDE / RESIZE / TOTAL SIZE *)
+Theorem C06_genome_subdivide : forall (A : Type) (comb : A -> list A -> A) (avg mn : Z) (cut : Z -> Z -> Z -> Z)
+                                      (t : list (g_row A)) (c : string),
+  filter (g_on c) (g_subdivide comb avg mn cut t) =
+  subdivide_sel (g_comb comb) avg mn cut (all_gaps Gen.IvDefaults.merge_bp_default t) (filter (g_on c) t).
+Proof. exact c06_genome_subdivide. Qed.
+
+(* row by row in table order, each row clipped at ITS chromosome's size *)
+Theorem C06_genome_resize : forall (A : Type) (bp : Z) (sizes : option (string -> option Z)) (t : list (g_row A)) (c : string),
+  filter (g_on c) (g_resize bp sizes t) = resize bp (g_size sizes c) (filter (g_on c) t) /\
+  g_resize bp sizes t = flat_map (fun r => resize bp (g_size sizes (g_chrom r)) [r]) t.
+Proof. exact c06_genome_resize. Qed.
+
+Theorem C06_genome_total : forall (A : Type) (comb : A -> list A -> A) (t : list (g_row A)),
+  g_total comb t =
+  sumZ (map (fun c => total_sel (g_comb comb) (all_gaps Gen.IvDefaults.total_size_bp t) (filter (g_on c) t))
+            (g_chroms t)).
+Proof. exact c06_genome_total. Qed.
+
+(* GenomicArray.sort (stable sort on (sorter_chrom(chromosome), start, end)): per chromosome it
+   is the stable (start, end) sort the per-chromosome models use; a permutation; sorted; rows
+   with equal keys keep their input order; a sorted table is left alone; idempotent; the
+   chromosomes come in sorter_chrom order *)
+Theorem C06_genome_sort : forall (A : Type) (t : list (g_row A)) (c : string) (z : g_row A),
+  let leb := region_leb (@g_proj A) in
+  filter (g_on c) (g_sort t) = sort_rows (filter (g_on c) t) /\
+  Permutation t (g_sort t) /\
+  StronglySorted (fun a b => leb a b = true) (g_sort t) /\
+  filter (fun y => leb z y && leb y z) (g_sort t) = filter (fun y => leb z y && leb y z) t /\
+  (Sorted (fun a b => leb a b = true) t -> g_sort t = t) /\
+  g_sort (g_sort t) = g_sort t /\
+  StronglySorted (fun a b => ckey_leb (chrom_key a) (chrom_key b) = true) (map g_chrom (g_sort t)).
+Proof. exact c06_genome_sort. Qed.
+
+Example C06_genome_example :
+  let t : list (g_row pcols) :=
+    [(0, 5, ("chr2", mkPcols "A" "x" "+" (1#2) 1 1)); (0, 5, ("chr10", mkPcols "B" "y" "-" (1#4) 2 2));
+     (3, 8, ("chr2", mkPcols "B" "x" "-" 1 3 3)); (2, 4, ("chr1", mkPcols "C" "z" "+" 2 4 4));
+     (1, 3, ("chr10", mkPcols "A" "y" "-" (1#4) 5 5))]%string in
+  map (fun r => (g_chrom r, lo r, hi r, c_gene (snd (pay r)), c_strand (snd (pay r)), c_probes (snd (pay r)), c_tag (snd (pay r))))
+      (g_merge (comb_cols false) 0 t) =
+  [("chr1", 2, 4, "C", "+", 4, 4); ("chr2", 0, 8, "A,B", ".", 4, 1); ("chr10", 0, 5, "B,A", "-", 7, 2)]%string.
+Proof. vm_compute. reflexivity. Qed.
+
+(* ==== PAYLOAD ===================================================================
+   merge (bp = 0): every output row o stands for one overlap group, and that group is
+   EXACTLY the input rows lying inside o, in (start, end) order; one row -> the row as it
+   is, several -> comb (first row's fields) (all rows' fields). *)
+Theorem C06_merge_payload_rows : forall (A : Type) (comb : A -> list A -> A) (t : list (@row A)),
+  valid t ->
+  Forall (fun o =>
+    let cov := filter (iv_within o) (sort_rows t) in
+    exists f, hd_error cov = Some f /\ lo o = lo f /\
+              (cov = [o] \/ pay o = comb (pay f) (map pay cov)))
+    (merge_slow comb 0 t).
+Proof. exact c06_merge_payload_rows. Qed.
+
+(* flatten: the rows combined for a piece are EXACTLY the input rows containing it *)
+Theorem C06_flatten_payload_rows : forall (A : Type) (comb : A -> list A -> A) (t : list (@row A)),
+  valid t ->
+  Forall (fun p =>
+    let cov := filter (iv_contains p) (sort_rows t) in
+    cov <> [] /\
+    exists g f, In g (groups 0 (sort_rows t)) /\ hd_error g = Some f /\ In p (flatten_group comb g) /\
+                ((g = [p] /\ cov = [p]) \/ pay p = comb (pay f) (map pay cov)))
+    (flatten_slow comb t).
+Proof. exact c06_flatten_payload_rows. Qed.
+
+(* GenomicArray.merge() with the default combiners on a whole table: each output row's gene
+   (accession) is the comma-join of the distinct names of exactly the input rows of its
+   chromosome that it covers, in row order; weight / probes are their sums; strand the common
+   strand or "."; the combiner-less column comes from the first of those rows (`cols_of`) *)
+Theorem C06_merge_payload : forall t : list (g_row pcols), valid t ->
+  Forall (fun o =>
+    let cov := filter (iv_within o) (sort_rows (filter (g_on (g_chrom o)) t)) in
+    cov <> [] /\ cols_of (f_cols o) (f_cols (hd o cov)) (map f_cols cov))
+    (g_merge (comb_cols false) 0 t).
+Proof. exact c06_merge_payload. Qed.
+
+(* GenomicArray.flatten(): the same rule over the input rows CONTAINING the piece; the
+   combiner-less column comes from the first row of the piece's overlap group (from the piece
+   itself when the table is returned unchanged) *)
+Theorem C06_flatten_payload : forall t : list (g_row pcols), valid t ->
+  Forall (fun p =>
+    let u := filter (g_on (g_chrom p)) t in
+    let cov := filter (iv_contains p) (sort_rows u) in
+    cov <> [] /\
+    exists first, cols_of (f_cols p) first (map f_cols cov) /\
+      (no_overlap t = true -> first = f_cols p) /\
+      (no_overlap t = false ->
+         exists g f, In g (groups 0 (sort_rows u)) /\ hd_error g = Some f /\
+                     In p (flatten_group (g_comb (comb_cols false)) g) /\ first = f_cols f))
+    (g_flatten (comb_cols false) t).
+Proof. exact c06_flatten_payload. Qed.
+
+(* the combiners of skgenome/combiners.py: get_combiners' defaults by column name (the table
+   is regenerated from the source), join_strings = the distinct values in order of first
+   appearance joined by ",", first_of / last_of / max / sum / merge_strands / make_const *)
+Theorem C06_combiners :
+  (forall s, default_combiner s "chromosome" = Some CFirst /\ default_combiner s "start" = Some CFirst /\
+             default_combiner s "end" = Some CMax /\ default_combiner s "gene" = Some CJoin /\
+             default_combiner s "accession" = Some CJoin /\ default_combiner s "weight" = Some CSum /\
+             default_combiner s "probes" = Some CSum /\ default_combiner s "tag" = None) /\
+  default_combiner false "strand" = Some CStrands /\ default_combiner true "strand" = Some CFirst /\
+  (forall l, join_strings l = String.concat "," (uniq l) /\ iv_distinct_in_order (uniq l) l) /\
+  (forall d x t, comb_str (Some CFirst) d (x :: t) = x /\ comb_str (Some CLast) d (x :: t) = last (x :: t) d /\
+                 comb_str (Some CStrands) d (x :: t) = (if forallb (String.eqb x) t then x else "."%string) /\
+                 comb_str None d (x :: t) = d) /\
+  (forall d x t, comb_Z (Some CFirst) d (x :: t) = x /\ comb_Z (Some CSum) d (x :: t) = sumZ (x :: t) /\
+                 (forall y, In y (x :: t) -> y <= comb_Z (Some CMax) d (x :: t)) /\
+                 In (comb_Z (Some CMax) d (x :: t)) (x :: t) /\ comb_Z None d (x :: t) = d) /\
+  (forall d l, comb_Q (Some CSum) d l == fold_right Qplus 0%Q l) /\
+  (forall (V : Type) (v : V) l, make_const v l = v).
+Proof. exact c06_combiners. Qed.
+
+(* ==== SOURCE TIES (function-body translator, tools/fnspecs/intervals.py) =============
+   The scalar rules inside subdivide._split_targets and GenomicArray.resize_ranges, taken
+   from the source text on every run (Gen/FnIntervals.v, Gen/FnIntervalsResize.v), EQUAL
+   the model functions the theorems above are about. *)
+From CNV Require Import Proofs.FnIntervals.
+From CNV Require Gen.FnIntervals Gen.FnIntervalsResize.
+
+(* `span >= min_size`, `nbins = int(round(span / avg_size)) or 1`, `nbins == 1`, for every
+   positive rational avg_size *)
+Theorem C06_source_split_rule : forall (s e : Z) (avg : Q) (mn : Z), 0 < Qnum avg ->
+  let span := e - s in
+  let n := nbins (Qnum avg) (span * Zpos (Qden avg)) in
+  Gen.FnIntervals.fn_split_rule s e avg mn = (negb (span <? mn), n, n =? 1).
+Proof. exact fn_split_rule_eq. Qed.
+
+(* the row-level model of subdivide is the generated rule around the cut-point loop *)
+Theorem C06_source_split_row : forall (A : Type) (avg mn : Z) (cut : Z -> Z -> Z -> Z) (r : @row A), 0 < avg ->
+  let '(ok, n, single) := Gen.FnIntervals.fn_split_rule (lo r) (hi r) (inject_Z avg) mn in
+  split_row avg mn cut r =
+  if ok then (if single then [r]
+              else bins_from (cut (hi r - lo r) n) (lo r) (lo r) 1 (Z.to_nat (n - 1)) (hi r) (pay r))
+  else [].
+Proof. exact @split_row_source. Qed.
+
+(* `(start - bp).clip(lower=0[, upper=size])`, `(end + bp).clip(...)`, `end - start > 0` *)
+Theorem C06_source_resize : forall (A : Type) (bp : Z) (size : option Z) (r : @row A),
+  let '(s', e') := match size with
+                   | Some u => Gen.FnIntervalsResize.fn_resize_sized (lo r) (hi r) bp u
+                   | None => Gen.FnIntervalsResize.fn_resize_open (lo r) (hi r) bp
+                   end in
+  resize bp size [r] =
+  if (bp <? 0) && negb (Gen.FnIntervalsResize.fn_resize_ok s' e') then [] else [(s', e', pay r)].
+Proof. exact @resize_source. Qed.
+
+Theorem C06_source_resize_clip : forall s e bp size : Z,
+  Gen.FnIntervalsResize.fn_resize_open s e bp = (clip_to None (s - bp), clip_to None (e + bp)) /\
+  Gen.FnIntervalsResize.fn_resize_sized s e bp size = (clip_to (Some size) (s - bp), clip_to (Some size) (e + bp)) /\
+  Gen.FnIntervalsResize.fn_resize_ok s e = (0 <? e - s).
+Proof. exact fn_resize_clip_to. Qed.
